@@ -151,6 +151,18 @@ Theorem C14_source_skeleton :
 Proof. exact (@skel_location). Qed.
 Print Assumptions C14_source_skeleton.
 
+(* multi-dimensional longitude / latitude arrays whose SHAPES differ are rejected, whatever their sizes (shape_guard is the wrapper the correspondence puts around the flattened model) *)
+Theorem C14_shapes_differ_rejected :
+  forall (s1 s2 : list nat) (o : outcome), s1 <> s2 -> shape_guard s1 s2 o = Raises ValueError.
+Proof. exact (@shape_guard_differ). Qed.
+Print Assumptions C14_shapes_differ_rejected.
+
+(* with equal shapes the result is that of the flattened series *)
+Theorem C14_shapes_equal_flattened :
+  forall (s : list nat) (o : outcome), shape_guard s s o = o.
+Proof. exact (@shape_guard_same). Qed.
+Print Assumptions C14_shapes_equal_flattened.
+
 Theorem C14_assign_order : assign_order_location_test = [MISSING; FAIL; SUSPECT; FAIL].
 Proof. reflexivity. Qed.
 Print Assumptions C14_assign_order.
